@@ -222,6 +222,13 @@ func (e *engine) doStep(st Step) {
 			if err == nil {
 				e.pg = sim.NewPager(e.conn, e.cfg.Layout, e.cfg.Pager)
 			}
+		case "Litter":
+			// what interrupted receives leave behind: temporary files next to the transaction files
+			dir := filepath.Join(e.dbDir, "ltx")
+			top := e.snapshot().txid + 1
+			for _, n := range []string{fmt.Sprintf("%016x-%016x.ltx.tmp", top, top), fmt.Sprintf("%016x-%016x.ltx.%d.tmp", top, top, 424242+e.step), fmt.Sprintf("%016x-%016x.ltx.%d.tmp", top+1, top+1, 7)} {
+				_ = os.WriteFile(filepath.Join(dir, n), []byte("partial"), 0o666)
+			}
 		case "Retain":
 			e.node.Store.Retention = time.Nanosecond
 			time.Sleep(2 * time.Millisecond)
